@@ -1,6 +1,7 @@
 /-
 C18 — Internal buffers stay bounded (the bounds that are local to one call).
 -/
+import GgrsModel.Proofs.RecvBound
 import GgrsModel.Model.Spectator
 import GgrsModel.Proofs.Monad
 
@@ -114,4 +115,22 @@ theorem C18_checksum_prune (e e' : Endpoint) (cs : Nat) (f : Frame) (i : Nat)
     simpa using this
 
 end Endpoint
+end Ggrs
+
+namespace Ggrs
+
+/-- **C18, unacknowledged and remembered inputs (every schedule of one link).** For every schedule
+of submissions, retransmissions, packet and acknowledgement deliveries (Proofs/Link.lean), the
+sender never holds more than `PENDING_OUTPUT_SIZE + 1` unacknowledged inputs (as long as the
+session stops submitting once the window is full — it disconnects the endpoint then) and the
+receiver never remembers more than `2·max_prediction + 1` received inputs. -/
+theorem C18_link_buffers (S : SStream) (hsize : S.width ≤ 65535) (st st' : Link) (h : LInv S st)
+    (hb : RBound st.b) (hrun : LStar S st st') :
+    st'.a.pendingOutput.length ≤ PENDING_OUTPUT_SIZE + 1 ∧
+    st'.b.recvInputs.length ≤ 2 * st.b.maxPrediction + 1 := by
+  have h' := L_link S hsize st st' h hrun
+  refine ⟨?_, (RBound_run S hsize st st' h hb hrun).2.2⟩
+  rw [h'.sinv.pend, framesFrom_length]
+  exact h'.pendLen
+
 end Ggrs
